@@ -88,3 +88,21 @@ def run(ck, exe, cases, args=('-d', '-n2'), env=None, timeout=60):
     jobs = [dict(exe=exe, args=list(args), data=c.data, timeout=timeout,
                  env=env) for c in cases]
     return proc.run_many(jobs)
+
+
+def run_configs(ck, exe, cases, timeout=60):
+    """One run per case under a random decompression configuration (input /
+    output granularity, slot count, worker count, perturbation seed)."""
+    import camp_sched as S
+    rng = ck.rng
+    jobs = []
+    confs = []
+    for c in cases:
+        big = len(c.data) > 20000 or (c.expect is not None and
+                                      len(c.expect) > 50000)
+        env = S.config_env(rng, big=big)
+        n = rng.choice([1, 2, 3, 4])
+        jobs.append(dict(exe=exe, args=['-d', '-n%d' % n], data=c.data,
+                         timeout=timeout, env=env))
+        confs.append((n, env))
+    return proc.run_many(jobs), confs
